@@ -829,6 +829,8 @@ class Exec:
                 return EnumV(vi, (), ename)
         if want_ty and int_type(want_ty) is None:
             return OpaqueV("const." + sanitize(c), want_ty or "")
+        if re.fullmatch(r"[A-Za-z_][A-Za-z0-9_:]*", c) and getattr(self.ctx, "uninterpreted_unknown_calls", False):
+            return OpaqueV("const." + sanitize(c), c)     # unit struct constant such as `RangeFull`
         raise Unsupported(f"constant `{c}`")
 
     def find_const(self, c, fr):
